@@ -72,7 +72,7 @@ Definition prefixlvl (t : token) : nat :=
 Definition is_first (t : token) : bool :=
   match t with
   | TNumber _ | TIntBase _ _ | TNaN | TInf | TIdent _ | TQuestionMark | TTrue | TFalse | TString _
-  | TLParen | TLBracket | TMinus | TPlus | TExcl | TIf => true
+  | TInterpStart _ | TLParen | TLBracket | TMinus | TPlus | TExcl | TIf => true
   | _ => false
   end.
 
@@ -206,6 +206,7 @@ Fixpoint depth (t : sx) : nat :=
   match t with
   | SParen e => S (depth e)
   | SList es => S (list_max (map depth es))
+  | SInterp _ items => S (list_max (map (fun it => depth (fst (fst it))) items))
   | SStruct _ fields => S (list_max (map (fun fe => depth (snd fe)) fields))
   | SCall f args => Nat.max (depth f) (S (list_max (map depth args)))
   | SField e _ | SUPow e _ | SFact e _ | SNeg e | SPos e | SNot e => depth e
@@ -219,6 +220,7 @@ Fixpoint size (t : sx) : nat :=
   | SParen e | SField e _ | SUPow e _ | SFact e _ | SNeg e | SPos e | SNot e => S (size e)
   | SCall f args => S (size f + list_sum (map size args))
   | SList es => S (list_sum (map size es))
+  | SInterp _ items => S (list_sum (map (fun it => size (fst (fst it))) items))
   | SStruct _ fields => S (list_sum (map (fun fe => size (snd fe)) fields))
   | SPow a _ b | SIMul a b | SBin _ a b | SApply a b => S (size a + size b)
   | SIf c t e => S (size c + size t + size e)
@@ -245,6 +247,17 @@ Lemma depth_in_fields : forall (f : str) (a : sx) fields, In (f, a) fields ->
   depth a <= list_max (map (fun fe => depth (snd fe)) fields).
 Proof.
   induction fields; simpl; intros H; [tauto|]. destruct H as [->|H]; [simpl; lia|]. specialize (IHfields H). lia.
+Qed.
+
+Lemma size_in_items : forall (a : sx) f lx items, In (a, f, lx) items ->
+  size a <= list_sum (map (fun it : sx * option str * str => size (fst (fst it))) items).
+Proof.
+  induction items; simpl; intros H; [tauto|]. destruct H as [->|H]; [simpl; lia|]. specialize (IHitems H). lia.
+Qed.
+Lemma depth_in_items : forall (a : sx) f lx items, In (a, f, lx) items ->
+  depth a <= list_max (map (fun it : sx * option str * str => depth (fst (fst it))) items).
+Proof.
+  induction items; simpl; intros H; [tauto|]. destruct H as [->|H]; [simpl; lia|]. specialize (IHitems H). lia.
 Qed.
 
 (* ---- follow sets *)
@@ -543,6 +556,73 @@ Proof.
   rewrite Sk. rewrite list_loop_ok; [reflexivity|exact HA|lia].
 Qed.
 
+(* ---- interpolated strings *)
+Lemma pr_interp : forall l0 items, pr (SInterp l0 items) = TInterpStart l0 :: pr_items items.
+Proof.
+  intros l0 items. reflexivity.
+Qed.
+
+Definition iparts (items : list (sx * option str * str)) : list (ipart expr) :=
+  flat_map (fun it => [PExpr (desugar (fst (fst it))) (snd (fst it)); PFixed (strip_and_escape (snd it))]) items.
+
+(* the tokens from the string part that follows an interpolation *)
+Definition pr_isep (lx : str) (r : list (sx * option str * str)) : list token :=
+  match r with [] => [TInterpEnd lx] | _ :: _ => TInterpMiddle lx :: pr_items r end.
+
+Lemma starts_first : forall tok r, is_first tok = true -> starts_no_expression (tok :: r) = false.
+Proof. intros tok r H. destruct tok; try discriminate; reflexivity. Qed.
+
+Lemma interpolation_ok : forall d a f lx r rest, wf a = true -> P d a 0 ->
+  interpolation (expression_d (S d)) (pr a ++ pr_spec f ++ pr_isep lx r ++ rest)
+  = Ok [PExpr (desugar a) f] (pr_isep lx r ++ rest).
+Proof.
+  intros d a f lx r rest Wa Pa. unfold interpolation.
+  destruct (pr_first a Wa) as (tok & ra & E & Fi & _).
+  assert (S0 : starts_no_expression (pr a ++ pr_spec f ++ pr_isep lx r ++ rest) = false).
+  { rewrite E. cbn [app]. apply starts_first. exact Fi. }
+  rewrite S0. change (expression_d (S d)) with (L d 0).
+  rewrite Pa.
+  - cbn [bind]. destruct f as [x|]; cbn [pr_spec app]; [reflexivity|].
+    destruct r; reflexivity.
+  - destruct f as [x|]; cbn [pr_spec app]; [apply follow_tok; simpl; auto|].
+    destruct r; cbn [pr_isep app]; apply follow_tok; simpl; auto.
+Qed.
+
+Lemma interp_loop_ok : forall d r lx acc n rest,
+  (forall a f l, In (a, f, l) r -> wf a = true /\ P d a 0) -> length r < n ->
+  interp_loop (expression_d (S d)) n acc (pr_isep lx r ++ rest)
+  = Ok (EInterp (filter nonempty_part (acc ++ PFixed (strip_and_escape lx) :: iparts r))) rest.
+Proof.
+  induction r as [|[[a f] lx'] r IH]; intros lx acc n rest HA Hn; (destruct n; [simpl in Hn; lia|]).
+  - reflexivity.
+  - cbn [pr_isep app interp_loop pr_items]. rewrite <- !app_assoc.
+    change (match r with [] => [TInterpEnd lx'] | _ :: _ => TInterpMiddle lx' :: pr_items r end) with (pr_isep lx' r).
+    destruct (HA a f lx' (or_introl eq_refl)) as [Wa Pa].
+    rewrite (interpolation_ok d a f lx' r rest Wa Pa). cbn [bind].
+    rewrite IH; [|intros b g l Hb; apply (HA b g l); right; exact Hb|simpl in Hn; lia].
+    unfold iparts. cbn [flat_map fst snd]. rewrite <- app_assoc. reflexivity.
+Qed.
+
+Lemma len_items : forall items, length items <= length (pr_items items).
+Proof.
+  induction items as [|[[a f] lx] r IH]; [simpl; lia|].
+  cbn [pr_items length]. rewrite !app_length. destruct r; cbn [length] in *; lia.
+Qed.
+
+Lemma own_interp : forall d l0 items, items <> [] ->
+  (forall a f l, In (a, f, l) items -> wf a = true /\ P d a 0) -> P (S d) (SInterp l0 items) 16.
+Proof.
+  intros d l0 items NE HA rest F. rewrite pr_interp. unfold L. cbn [app primary desugar].
+  destruct items as [|[[a f] lx] r]; [contradiction|].
+  cbn [pr_items]. rewrite <- !app_assoc.
+  change (match r with [] => [TInterpEnd lx] | _ :: _ => TInterpMiddle lx :: pr_items r end) with (pr_isep lx r).
+  destruct (HA a f lx (or_introl eq_refl)) as [Wa Pa].
+  rewrite (interpolation_ok d a f lx r rest Wa Pa). cbn [bind].
+  rewrite interp_loop_ok; [|intros b g l Hb; apply (HA b g l); right; exact Hb|].
+  - cbn [flat_map fst snd app]. reflexivity.
+  - pose proof (len_items r). rewrite app_length. destruct r; cbn [pr_isep length] in *; lia.
+Qed.
+
 Lemma struct_loop_ok : forall d name fs rest acc n,
   (forall f a, In (f, a) fs -> wf a = true /\ P d a 0) ->
   S (length (pr_fields fs ++ TRCurly :: rest)) <= n ->
@@ -816,6 +896,14 @@ Proof.
     try (apply close; [reflexivity | apply own_leaf; [exact I|reflexivity] | apply no_loop; reflexivity]).
   - (* SBased *)
     apply close; [exact W0 | apply own_leaf; [exact I|exact W0] | apply no_loop; reflexivity].
+  - (* SInterp *)
+    destruct d as [|d]; [lia|].
+    apply close; [exact W0 | | apply no_loop; reflexivity].
+    destruct items as [|it items']; [discriminate|].
+    apply own_interp; [discriminate|]. intros a f l Ha.
+    pose proof (size_in_items a f l _ Ha). pose proof (depth_in_items a f l _ Ha).
+    assert (Wa : wf a = true) by (eapply forallb_forall in W; [|exact Ha]; exact W).
+    split; [exact Wa|]. destruct (IHn a ltac:(lia) Wa d ltac:(lia)) as [Pa _]. apply Pa. lia.
   - (* SParen *)
     destruct d as [|d]; [lia|].
     destruct (IHn t ltac:(lia) W d ltac:(lia)) as [Pe _].
@@ -931,6 +1019,19 @@ Proof.
   destruct r; simpl in *; lia.
 Qed.
 
+Lemma depth_items : forall items, (forall a f l, In (a, f, l) items -> depth a <= length (pr a)) ->
+  list_max (map (fun it : sx * option str * str => depth (fst (fst it))) items) <= length (pr_items items).
+Proof.
+  induction items as [|[[a f] lx] r IH]; intros Hin; [simpl; lia|].
+  change (list_max (map (fun it : sx * option str * str => depth (fst (fst it))) ((a, f, lx) :: r)))
+    with (Nat.max (depth a) (list_max (map (fun it : sx * option str * str => depth (fst (fst it))) r))).
+  cbn [pr_items]. rewrite !app_length.
+  pose proof (Hin a f lx (or_introl eq_refl)).
+  assert (list_max (map (fun it : sx * option str * str => depth (fst (fst it))) r) <= length (pr_items r))
+    by (apply IH; intros b g l Hb; apply (Hin b g l); right; exact Hb).
+  destruct r; [simpl in *; lia|cbn [length] in *; lia].
+Qed.
+
 Lemma depth_le_len : forall n t, size t < n -> depth t <= length (pr t).
 Proof.
   induction n; intros t Hs; [lia|].
@@ -938,6 +1039,11 @@ Proof.
     try (pose proof (IHn t ltac:(lia)); simpl; rewrite ?app_length; simpl; lia);
     try (pose proof (IHn t1 ltac:(lia)); pose proof (IHn t2 ltac:(lia)); simpl; rewrite ?app_length; simpl;
          rewrite ?app_length; simpl; lia).
+  - (* SInterp *)
+    rewrite pr_interp. cbn [depth length].
+    assert (list_max (map (fun it : sx * option str * str => depth (fst (fst it))) items) <= length (pr_items items)).
+    { apply depth_items. intros b g l Hb. apply IHn. pose proof (size_in_items b g l items Hb). lia. }
+    lia.
   - (* SList *)
     rewrite pr_list. cbn [depth length]. rewrite app_length. cbn [length].
     assert (list_max (map depth es) <= length (pr_args es)).
